@@ -134,6 +134,9 @@ def read(self, size=-1):
         # never ends in a normal return (it surfaces as ClientDisconnected)
         "self._stream.nerr == old(self._stream.nerr)",
         "implies(self._stream.nzero > old(self._stream.nzero), self._limit_is_max)",
+        # a stream whose limit is a maximum (max_content_length on a terminated stream) never ends quietly once the maximum is
+        # reached: a read at the limit raises RequestEntityTooLarge (the raises clause says "only then", this says "always then")
+        "not (self._limit_is_max and old(self._pos) >= self.limit)",
         "I_ls1(self)",
     ]
     reg.contract(
